@@ -137,7 +137,6 @@ pub proof fn lemma_var_end_step(s: SS, i: int, j: int, f: nat)
 // ---------------------------------------------------------------------------
 pub type RSS = Rc<Vec<Option<Rc<Unifiable>>>>;
 
-pub open spec fn is_const(t: Unifiable) -> bool { t is Atom || t is SInteger || t is SFloat }
 
 pub open spec fn unbound_var(t: Unifiable, s: SS) -> bool {
     t is LogicVar && bnd(s, t->LogicVar_id as int) is None
